@@ -565,3 +565,115 @@ def c12j(ctx):
     raises = g.find_stmts(lambda s: isinstance(s, ast.Raise) and 'remove_before' in unparse(s))
     ok = bool(raises) and all(g.guarded(n, lambda at: at.text.endswith('cache.supports_timestamp'), False) for n in raises)
     ctx.check(ok, 'CleanupConfiguration.cleanup_tasks:refuses-age-without-timestamps', 'remove_before is refused for a cache without time stamps', cl)
+
+
+@rule('C12.k', floor=2)
+def c12k(ctx):
+    """every selected level is cleaned, whatever the directory layout: the directory based strategy (one directory per level, removed
+    file by file) is only chosen for a cache that can name the directory of each selected level.  The quadkey layout keeps all levels in
+    one directory and its level_location() raises NotImplementedError: the choice asks for the level directories first and falls back
+    to the tile walk when they cannot be named"""
+    fn = ctx.fn('mapproxy/seed/cleanup.py:cleanup')
+    g = fn.cfg
+    sc = g.find(lambda x: is_call(x, 'simple_cleanup'))
+    if not sc:
+        raise Undecided('cleanup: simple_cleanup call not found')
+
+    def probes(f):
+        """does function f try level_location(..) and answer False on NotImplementedError?"""
+        for t in f.walk():
+            if isinstance(t, ast.Try) and any(h.type is not None and 'NotImplementedError' in unparse(h.type) and
+                                              any(isinstance(s, ast.Return) and const_value(s.value, 1) is False for s in ast.walk(h)) for h in t.handlers):
+                if any(isinstance(x, ast.Call) and 'level_location' in unparse(x.func) for b in t.body for x in ast.walk(b)):
+                    return True
+        return False
+
+    def names_level_dirs(at):
+        c = at.expr if at.op is None else None
+        if not isinstance(c, ast.Call):
+            return False
+        nm = call_name(c)
+        f = ctx.repo.funcs.get('mapproxy/seed/cleanup.py:%s' % nm) if nm else None
+        return f is not None and probes(f) and any(unparse(a) == 'task.levels' for a in c.args)
+    ok = all(g.guarded(n, names_level_dirs, True) for n, x in sc)
+    if not ok:
+        # the probe written out in cleanup() itself: a try around level_location() whose NotImplementedError handler avoids simple_cleanup
+        ok = any(isinstance(t, ast.Try) and any(h.type is not None and 'NotImplementedError' in unparse(h.type) for h in t.handlers) and
+                 any(isinstance(x, ast.Call) and 'level_location' in unparse(x.func) for b in t.body for x in ast.walk(b)) and
+                 not any(is_call(x, 'simple_cleanup') for h in t.handlers for x in ast.walk(h)) for t in fn.walk())
+    ctx.check(ok, 'cleanup:directory-strategy-needs-level-directories', 'simple_cleanup is chosen only when level_location() answers for the selected levels', fn,
+              fail='cleanup() chooses the directory strategy for every cache that has a level_location method: for the quadkey layout that method '
+                   'raises NotImplementedError and the clean-up ends without removing anything')
+    tw = g.find(lambda x: is_call(x, 'tilewalker_cleanup'))
+    ctx.check(bool(tw), 'cleanup:tile-walk-fallback', 'caches without level directories are cleaned by the tile walk', fn)
+
+
+@rule('C12.l', floor=2)
+def c12l(ctx):
+    """what a task removes (or refreshes) is decided by its own cache: an entry of seed.yaml names several caches, and `remove_all` /
+    `refresh_all` is switched on for a cache that records no time stamps -- for the task of that cache only.  The generators that build
+    the tasks do not write to the configuration object inside their loops (a flag stored on `self` stays set for every cache that
+    follows: their tiles are all removed / all fetched again although they do record time stamps)"""
+    for qn in ('mapproxy/seed/config.py:SeedConfiguration.seed_tasks', 'mapproxy/seed/config.py:CleanupConfiguration.cleanup_tasks'):
+        fn = ctx.fn(qn)
+        bad = []
+        for st in fn.walk():
+            if isinstance(st, (ast.Assign, ast.AugAssign)) and enclosing(st, ast.For) is not None:
+                for t in (st.targets if isinstance(st, ast.Assign) else [st.target]):
+                    for x in ast.walk(t):
+                        if isinstance(x, ast.Attribute) and isinstance(x.ctx, ast.Store) and isinstance(x.value, ast.Name) and x.value.id == 'self':
+                            bad.append(unparse(x))
+        ctx.check(not bad, '%s:per-cache-decisions-stay-local' % fn.short, 'nothing is stored on the configuration object while the tasks of its caches are built', fn,
+                  fail='%s stores %s on the entry inside the loop over its caches: the value decided for one cache is used for all caches after it' % (
+                      fn.short, ', '.join(sorted(set(bad)))))
+
+
+@rule('C12.m', floor=2)
+def c12m(ctx):
+    """a continued clean-up skips only what was done: the saved progress is a level directory, and "already processed" is decided by
+    comparing directory names component by component -- components that are numbers (the level directories of the tms layout are not
+    zero-padded) are compared as numbers; as strings '10' sorts before '9' and the levels 10..19 count as done"""
+    fn = ctx.fn('mapproxy/seed/cleanup.py:DirectoryCleanupProgress.can_skip')
+    g = fn.cfg
+    cmps = [(n, x) for n, x in g.find(lambda x: isinstance(x, ast.Compare) and len(x.ops) == 1 and isinstance(x.ops[0], (ast.Lt, ast.Gt, ast.LtE, ast.GtE)))
+            if enclosing(x, ast.For) is not None]
+    if not cmps:
+        raise Undecided('can_skip: no ordering comparison of path components found')
+    defs = Defs(fn.node)
+    ok = True
+    for n, x in cmps:
+        for side in (x.left, x.comparators[0]):
+            if is_call(side, 'int'):
+                continue
+            if not isinstance(side, ast.Name):
+                ok = False
+                continue
+            # the name is (re)bound to int(<itself>) under `<name>.isdigit()` before the comparison
+            conv = [v for v, sel in defs.of(side.id) if is_call(v, 'int') or (isinstance(v, ast.Tuple) and sel is not None and
+                                                                             isinstance(sel, int) and sel < len(v.elts) and is_call(v.elts[sel], 'int'))]
+            ok = ok and bool(conv)
+    digits = [x for x in fn.walk() if isinstance(x, ast.Call) and isinstance(x.func, ast.Attribute) and x.func.attr in ('isdigit', 'isdecimal', 'isnumeric')]
+    ctx.check(ok and len(digits) >= 2, 'DirectoryCleanupProgress.can_skip:numbers-as-numbers',
+              'path components that are numbers are converted with int() before they are ordered', fn,
+              fail='can_skip orders the level directories as strings: after an interruption in level 2..9 of a tms layout the levels 10..19 are '
+                   'taken for done')
+    # the decision table of one step of the comparison is unchanged: smaller -> not skippable, larger -> skippable
+    rets = [r for r in returns_of(fn.node)]
+    ctx.check(any(const_value(r.value, 0) is True for r in rets) and any(const_value(r.value, 0) is False for r in rets),
+              'DirectoryCleanupProgress.can_skip:both-answers', 'can_skip answers both ways', fn)
+
+
+@rule('C12.n', floor=2)
+def c12n(ctx):
+    """shared rule C13.j, re-evaluated for this property: the time of the clean-up task, not the refresh_before option of the cache,
+    decides what the tile walk removes"""
+    from ..engine import run_property
+    sub = run_property(ctx.repo, 'C13', ctx.tier, only={'C13.j'})
+    for e in sub.errors:
+        raise Undecided('shared rule %s: %s' % e)
+    for o in sub.obs:
+        if o.status == 'ok':
+            ctx.ok('%s:%s' % (o.rule, o.construct), o.msg, o.where)
+        else:
+            ctx.bad('%s:%s' % (o.rule, o.construct), o.msg, o.where)
+    ctx.stats['functions'] |= sub.stats['functions']
